@@ -12,7 +12,7 @@ use std::sync::OnceLock;
 
 pub fn monitor_c05() -> Monitor {
   Monitor { id: "C05",
-    rule: "cones: centres from the sphere / pole (log-uniform 1e-12..0.05 from it, and exact) / seam meridians k.pi/4 / transition-latitude generators, exact cell centres and cell vertices; radii: log-uniform 1e-10..pi, 1e-3..60 cell sizes of the query depth, radii at (1 +- {1e-12,1e-6,1e-3,1e-2,3e-2,5e-2}) x each best_starting_depth threshold (located by bisection), r > pi/2 and r -> pi, nearly-all-sky cones at query depths 12..25 whose excluded cap is 1e-3..60 cells wide (machines with > 40 GB); query depth 0..29 (internal depth+delta <= 29) with radius/cell <= 60 so that the result stays small; variants approx, custom(delta 0..4), flat. Oracle: >= 200 witness points strictly inside the cone (64 evenly spaced bearings at 0.999999 r, random rho) hashed with the crate's hash must be covered by the BMOC (cell or ancestor); for depth <= 4 every cell with one of 25 inner grid points inside the cone must be covered; for r > pi/2, 32 more witnesses just outside the excluded cap around the antipode of the centre (at (1 + {1e-6..0.3}) x (pi - r), or pi - r + {1e-6..0.3} cells, from the antipode; distances measured from the antipode). Non-trivial = cone containing a pole, touching a seam meridian or the transition latitude, radius within 5% of a threshold, radius > pi/2, delta > 0, or centre exactly at a cell centre/vertex.",
+    rule: "cones: centres from the sphere / pole (log-uniform 1e-12..0.05 from it, and exact) / seam meridians k.pi/4 / transition-latitude generators, exact cell centres and cell vertices; radii: log-uniform 1e-10..pi, 1e-3..60 cell sizes of the query depth, radii at (1 +- {1e-12,1e-6,1e-3,1e-2,3e-2,5e-2}) x each best_starting_depth threshold (located by bisection), r > pi/2 and r -> pi, centres given with |lon| up to 1e14 rad (depth coarse enough for 4e-16 |lon| to stay below 1e-3 cell; that slack is added to every tolerance), nearly-all-sky cones at query depths 12..25 whose excluded cap is 1e-3..60 cells wide (machines with > 40 GB); query depth 0..29 (internal depth+delta <= 29) with radius/cell <= 60 so that the result stays small; variants approx, custom(delta 0..4), flat. Oracle: the cell of the centre (crate's own hash) is covered; >= 200 witness points strictly inside the cone (64 evenly spaced bearings at 0.999999 r, random rho) hashed with the crate's hash must be covered by the BMOC (cell or ancestor); for depth <= 4 every cell with one of 25 inner grid points inside the cone must be covered; for r > pi/2, 32 more witnesses just outside the excluded cap around the antipode of the centre (at (1 + {1e-6..0.3}) x (pi - r), or pi - r + {1e-6..0.3} cells, from the antipode; distances measured from the antipode). Non-trivial = cone containing a pole, touching a seam meridian or the transition latitude, radius within 5% of a threshold, radius > pi/2, delta > 0, or centre exactly at a cell centre/vertex.",
     assumptions: &["Layer::hash (C01) locates the witnesses", "witnesses are kept only if their accurately recomputed distance is <= r(1-1e-9)"],
     run, replay }
 }
@@ -97,6 +97,18 @@ pub fn gen_cone(rng: &mut Rng, allow_dd: bool) -> Case {
       let r2 = if rng.below(4) == 0 { PI * (1.0 - rng.log_uniform(1e-12, 1e-3)) } else { PI - cellk * rng.log_uniform(1e-6, 0.5) };
       return Case::new("cone").u("depth", depth2 as u64).u("dd", dd.min(29 - depth2) as u64).f("lon", c.0).f("lat", c.1).f("r", r2.max(1e-10)).u("s", rng.next() >> 1);
     }
+    // centre given with a longitude of thousands to 1e13 turns (|lon| log-uniform in 1e3 .. 1e14 rad); the query depth is kept coarse enough
+    // for the rounding of the longitude itself (4e-16 |lon|) to stay below 1e-3 cell
+    if rng.below(30) == 0 {
+      let big = rng.log_uniform(1e3, 1e14) * if rng.coin() { 1.0 } else { -1.0 };
+      let tolp = 4e-16 * big.abs();
+      let mut d = depth.min(29 - dd); while d > 0 && (1.0 / nside(d + dd) as f64) < 1e3 * tolp { d -= 1; }
+      if (1.0 / nside(d + dd) as f64) >= 1e3 * tolp {
+        let cellq = 1.0 / nside(d + dd) as f64;
+        let r2 = match rng.below(3) { 0 => rng.log_uniform(1e-10, cellq), 1 => cellq * rng.range(0.2, 30.0), _ => (cellq * rng.log_uniform(1e-3, 50.0)).min(3.0) };
+        return Case::new("cone").u("depth", d as u64).u("dd", dd as u64).f("lon", big).f("lat", lat).f("r", r2.max(1e-10)).u("s", rng.next() >> 1);
+      }
+    }
     // nearly-all-sky cones at deep query depths: the excluded cap around the antipode is 1e-3..60 cells of the working depth wide, so the
     // result is small although radius/cell is huge (the crate reserves 4(1 + 2 sqrt3 nside r) entries of virtual memory per call:
     // 12 GB at depth 25 — class generated only when the machine has more than 40 GB, and up to depth 25)
@@ -179,6 +191,12 @@ pub fn judge(ctx: &mut Ctx, c: &Case) {
   if !hard { ctx.bump("plain-cones"); }
   // ---------------- C05: witnesses
   let cover = Cover::new(depth, &cells);
+  // a longitude of many turns is itself known to a few ulps only: 4e-16 |lon| rad of positional slack on the centre (0 within 50 rad)
+  let tol_pos = if lon.abs() > 50.0 { 4e-16 * lon.abs() } else { 0.0 };
+  if lon.abs() > 1e3 { ctx.hard("cone:centre-longitude-beyond-1e3-rad", &fp); }
+  // the centre belongs to the cone whatever the radius: its cell (as the crate's own hash reads the position) must be covered
+  ctx.eval();
+  match catch(|| layer.hash(lon, lat)) { Ok(hc) => if cover.get(depth, hc).is_none() { report(ctx, "C05", "cone-coverage-misses-the-cell-of-its-own-centre", c.clone(), format!("cell {} (hash of the centre at depth {}) not covered; {} cells returned: {}", hc, depth, cells.len(), fmt_cells(&cells))); }, Err(_) => {} }
   let n_w = if r >= PI { 64 } else { 224 };
   let mut missed: Option<((f64, f64), u64, f64)> = None; let mut n_wit = 0;
   let mut wit_cells: Vec<(u64, (f64, f64), f64)> = Vec::new();
@@ -186,7 +204,7 @@ pub fn judge(ctx: &mut Ctx, c: &Case) {
     let (rho, th) = if k < 64 { (r * (1.0 - 1e-6), (k as f64 + 0.5) * TWO_PI / 64.0) } else { (match k % 4 { 0 => r * rng.f().sqrt(), 1 => r * (1.0 - 1e-3 * rng.f()), 2 => r * rng.f(), _ => r * (1.0 - rng.log_uniform(1e-7, 0.5)) }, rng.f() * TWO_PI) };
     let p = point_at(lon, lat, rho.min(PI), th);
     let d = dist(p, (lon, lat));
-    if !(d <= r * (1.0 - 1e-9)) { continue; }
+    if !(d <= r * (1.0 - 1e-9) - 8.0 * tol_pos) { continue; }
     n_wit += 1;
     let h = match catch(|| layer.hash(p.0, p.1)) { Ok(h) => h, Err(_) => continue };
     wit_cells.push((h, p, d));
@@ -223,7 +241,7 @@ pub fn judge(ctx: &mut Ctx, c: &Case) {
       let (se, ce) = f64::sin_cos(eta); let pv = [vv[0] * ce + t[0] * se, vv[1] * ce + t[1] * se, vv[2] * ce + t[2] * se];
       let p = (pv[1].atan2(pv[0]).rem_euclid(TWO_PI), pv[2].atan2((pv[0] * pv[0] + pv[1] * pv[1]).sqrt()));
       let d = dist(p, (lon, lat));
-      if !(d <= r * (1.0 - 1e-9)) { continue; }
+      if !(d <= r * (1.0 - 1e-9) - 8.0 * tol_pos) { continue; }
       // the witness must be in that coarse cell for the reference model too (not on its border)
       if !contains(k, *hc, p.0, p.1, 0.0).0 { continue; }
       n_wit += 1; ctx.hard("cone:grazes-a-coarse-cell-at-a-vertex", &[fp[0], fp[2], fp[3], fp[4], *hc, k as u64]);
@@ -246,7 +264,7 @@ pub fn judge(ctx: &mut Ctx, c: &Case) {
     'cells: for h in 0..n_hash(depth) {
       for i in 0..5 { for j in 0..5 {
         let p = ref_sph_coo(depth, h, 0.1 + 0.2 * i as f64, 0.1 + 0.2 * j as f64);
-        if dist(p, (lon, lat)) <= r * (1.0 - 1e-9) {
+        if dist(p, (lon, lat)) <= r * (1.0 - 1e-9) - 8.0 * tol_pos {
           n_chk += 1;
           if cover.get(depth, h).is_none() { report(ctx, "C05", "cone-coverage-misses-a-cell-containing-a-point-of-the-cone", c.clone().f("ratio", ratio).f("dlon_seam", dl).b("in_start_block", true).b("exhaustive", true), format!("cell {} has inner point {:?} in the cone, not covered", h, p)); break 'cells; }
           continue 'cells;
@@ -292,7 +310,7 @@ pub fn judge(ctx: &mut Ctx, c: &Case) {
     ctx.eval();
     let ctr = ref_center(d, h);
     let dc = dist(ctr, (lon, lat));
-    let lim = r + 2.0 * cell_radius_bound(d);
+    let lim = r + 2.0 * cell_radius_bound(d) + 8.0 * tol_pos;
     ctx.worst_max("(centre_distance - r) / cell_radius_bound", (dc - r) / cell_radius_bound(d));
     if dc > lim * (1.0 + 1e-12) { report(ctx, "C06", "reported-cell-farther-than-r+2-cell-radii", c.clone().u("cd", d as u64).u("ch", h), format!("cell {}/{} centre at {:e} > {:e}", d, h, dc, lim)); break; }
     if f {
@@ -300,7 +318,7 @@ pub fn judge(ctx: &mut Ctx, c: &Case) {
       ctx.eval();
       let mut worst = 0.0f64; let mut wp = (0.0, 0.0);
       for p in ref_border_points(d, h, 3) { let dp = dist(p, (lon, lat)); if dp > worst { worst = dp; wp = p; } }
-      if worst > r * (1.0 + 1e-9) + 1e-14 { report(ctx, "C06", "cell-flagged-full-sticks-out-of-the-cone", c.clone().u("cd", d as u64).u("ch", h), format!("cell {}/{} border point {:?} at {:e} > r={:e} (excess {:e} = {:.4} cell); result {}", d, h, wp, worst, r, worst - r, (worst - r) * nside(d) as f64, fmt_cells(&cells))); break; }
+      if worst > r * (1.0 + 1e-9) + 1e-14 + 8.0 * tol_pos { report(ctx, "C06", "cell-flagged-full-sticks-out-of-the-cone", c.clone().u("cd", d as u64).u("ch", h), format!("cell {}/{} border point {:?} at {:e} > r={:e} (excess {:e} = {:.4} cell); result {}", d, h, wp, worst, r, worst - r, (worst - r) * nside(d) as f64, fmt_cells(&cells))); break; }
     }
   }
   // radius > pi/2: the complement of the cone is a small cap of radius rho = pi - r around the antipode of the centre. Distances close to pi
